@@ -213,3 +213,105 @@ pub fn drain_capped<T, I: Iterator<Item = T>>(it: I, cap: usize) -> (Vec<T>, boo
     }
     (out, false)
 }
+
+
+/// Sequential reading through the Iterator adaptors a caller may use instead of a plain loop (`nth`, `skip`,
+/// `step_by`, `count`, `last`): each must select the same items a plain loop would. `open` yields a fresh
+/// reader; `expect[i]` is what item i must look like; `same` compares an expectation with a view.
+pub fn adaptor_routes<T, F, C>(route: &str, open: F, expect: &[Geom], same: C) -> Result<(), (String, String)>
+where
+    T: std::io::Read + std::io::Seek,
+    F: Fn() -> Result<ShapeReader<T>, Error>,
+    C: Fn(&Geom, &Geom) -> Result<(), String>,
+{
+    let n = expect.len();
+    let fail = |key: &str, msg: String| Err((key.to_string(), format!("route {}: {}", route, msg)));
+    let op = |what: &str| open().map_err(|e| ("open-error".to_string(), format!("route {} ({}): {}", route, what, err_str(&e))));
+    let check = |what: &str, i: usize, item: Option<Result<Shape, Error>>| -> Result<(), (String, String)> {
+        match item {
+            Some(Ok(s)) => {
+                if i >= n {
+                    return Err(("count".into(), format!("route {}: {} yields an item at position {} of {}", route, what, i, n)));
+                }
+                same(&expect[i], &view_shape(&s)).map_err(|m| ("shape-differs".to_string(), format!("route {}: {} item expected to be shape {}: {}", route, what, i, m)))
+            }
+            Some(Err(e)) => Err(("read-error".into(), format!("route {}: {} at position {}: {}", route, what, i, err_str(&e)))),
+            None => {
+                if i < n {
+                    Err(("count".into(), format!("route {}: {} ends before shape {} of {}", route, what, i, n)))
+                } else {
+                    Ok(())
+                }
+            }
+        }
+    };
+    // step_by(2)
+    {
+        let mut r = op("step_by")?;
+        let mut it = r.iter_shapes().step_by(2);
+        let mut i = 0;
+        while i < n + 2 {
+            let item = it.next();
+            let none = item.is_none();
+            check("step_by(2)", i, item)?;
+            if none {
+                break;
+            }
+            i += 2;
+        }
+    }
+    // skip(k) then to the end
+    {
+        let k = n / 2;
+        let mut r = op("skip")?;
+        let mut it = r.iter_shapes().skip(k);
+        for i in k..n + 1 {
+            let item = it.next();
+            check(&format!("skip({})", k), i, item)?;
+        }
+    }
+    // nth twice on the same iterator, then the rest, then the end
+    {
+        let mut r = op("nth")?;
+        let mut it = r.iter_shapes();
+        let a = it.nth(1);
+        check("nth(1)", 1, a)?;
+        if n > 2 {
+            let b = it.nth(0);
+            check("nth(1) then nth(0)", 2, b)?;
+            let c = it.nth(2);
+            check("nth(1), nth(0), nth(2)", 5, c)?;
+            let mut i = 6;
+            loop {
+                let item = it.next();
+                let none = item.is_none();
+                check("after three nth calls", i, item)?;
+                if none || i > n + 1 {
+                    break;
+                }
+                i += 1;
+            }
+            if it.next().is_some() {
+                return fail("count", "an item is yielded after the iterator ended".into());
+            }
+        }
+    }
+    // count and last
+    {
+        let mut r = op("count")?;
+        let c = r.iter_shapes().count();
+        if c != n {
+            return fail("count", format!("iter_shapes().count() = {}, {} shapes", c, n));
+        }
+        let mut r = op("last")?;
+        let l = r.iter_shapes().last();
+        if n == 0 {
+            if l.is_some() {
+                return fail("count", "last() yields an item from an empty file".into());
+            }
+        } else {
+            check("last()", n - 1, l)?;
+        }
+    }
+    Ok(())
+}
